@@ -394,8 +394,23 @@ def build(prog: dict) -> dict:
         if step == "mpms" and not rename:
             try:
                 g_before, _ = export.export_graph(cur)
-                res["records"].append({"id": rid + "#mpmsrule", "rel": "mpms", "a": g_before,
-                                       "b": gb, "outs": [o["node"] for o in g_before["outs"]]})
+                # "stored twins": two nodes that differ in their tags only (x and
+                # x.tagged(ImplStored) both in the graph).  Storing the untagged one
+                # makes them EQUAL and the result legitimately has one node fewer, so
+                # the position-wise rule cannot be stated; the value, tag-only and
+                # idempotence clauses still are.
+                seen_nt = set()
+                twins = False
+                for nd in g_before["nodes"]:
+                    k = (nd["loc_nt"], tuple(nd["kidlist"]))
+                    twins = twins or k in seen_nt
+                    seen_nt.add(k)
+                if twins:
+                    res["mpms_rule_skipped_twins"] = res.get("mpms_rule_skipped_twins", 0) + 1
+                else:
+                    res["records"].append({"id": rid + "#mpmsrule", "rel": "mpms",
+                                           "a": g_before, "b": gb,
+                                           "outs": [o["node"] for o in g_before["outs"]]})
             except export.Unsupported:
                 pass
         # relations between input and output of this step / idempotence
